@@ -29,7 +29,11 @@ RULE = (
     "refused with the same exception class by model and code; a request naming a label twice only ever ends a chain and is "
     "judged by the correspondence only (not a subset: outside the property). The (rows, single column) form of loc/iloc "
     "(repaired by F10) is an ordinary selection and has its own stream incl. empty row selections and alternatives whose "
-    "labels are also criterion labels. "
+    "labels are also criterion labels. One matrix in eight of the main stream has some or all alternatives named like criteria; "
+    "a stream of SCALAR row selections (loc[label], iloc[i], (scalar row, column list/slice/mask/all)) on such matrices, "
+    "the row being a criterion's namesake three times out of four, alone / after other links / followed by copy, round "
+    "trips and further links; a stream of matrices with zero-weight criteria next to others (or only such) where a "
+    "selection keeps ONLY zero-weight criteria and is followed by copy() / to_dict()+mkdm (once or twice) and more links. "
     "Thorough adds ALL chains of length <= 2 over a fixed selector alphabet on a 3x3 matrix. Alias stream: every alias of "
     "the code, upper/lower/title variants of the string ones, and non-aliases. Non-trivial: the chain changes the order or "
     "the set of criteria or alternatives at least once (or an alias case); distinct by case hash."
@@ -186,12 +190,22 @@ def requested(alts, crits, step):
 # ------------------------------------------------------------------------------------------ generators
 
 
-def dm_case(rng, m=None, n=None, shared_labels=False):
+def dm_case(rng, m=None, n=None, shared_labels=False, zero=None):
+    """shared_labels: True / "all" = every alternative label is also a criterion label; "some" = a random non-empty
+    part of the alternatives is named like criteria (anywhere in the order), the others are not.
+    zero: None = a quarter of the matrices with random zero weights; "mixed" = at least one weight exactly 0 and (when
+    there are two criteria or more) at least one that is not; "all" = every weight exactly 0"""
     n = n or rng.randint(1, 6)
     m = m or rng.choice([k for k in range(1, 10) if k != n])
     alts = G.labels(rng, G.LABEL_POOL_ALT, m)
     crits = G.labels(rng, G.LABEL_POOL_CRIT, n)
-    if shared_labels:  # every alternative label is also a criterion label
+    if shared_labels == "some":
+        twins = rng.sample(crits, rng.randint(1, min(m, n)))
+        alts = [a for a in alts if a not in twins][:m - len(twins)]
+        for t in twins:
+            alts.insert(rng.randrange(len(alts) + 1), t)
+        m = len(alts)
+    elif shared_labels:  # every alternative label is also a criterion label
         alts = rng.sample(crits, min(m, n))
         m = len(alts)
     dts = [rng.choice(["int", "float"]) for _ in range(n)]
@@ -209,7 +223,12 @@ def dm_case(rng, m=None, n=None, shared_labels=False):
         rows.append(row)
     senses = G.objectives(rng, n)
     wts = G.weights(rng, n, family if n <= 8 else "dyadic")
-    if rng.random() < 0.25:
+    if zero == "all":
+        wts = [0.0] * n
+    elif zero == "mixed":
+        off = set(rng.sample(range(n), rng.randint(1, max(1, n - 1))))
+        wts = [0.0 if j in off else w for j, w in enumerate(wts)]
+    elif rng.random() < 0.25:
         # criteria of weight exactly 0 are legitimate (a criterion switched off); a sub-matrix may keep only such criteria
         for j in range(n):
             if rng.random() < 0.6:
@@ -509,13 +528,128 @@ def colseries_cases(rng, n):
     return out
 
 
+def _walk(alts, crits, chain):
+    """(every link is an ordinary selection, alternatives, criteria) after `chain`, on plain lists"""
+    a, c = list(alts), list(crits)
+    for s in chain:
+        st, form, a, c = requested(a, c, s)
+        if st != "ok" or form == "scalar" or has_dup(a, c):
+            return False, a, c
+    return True, a, c
+
+
+def _prefix(rng, dm, p=0.35, need_alts=True, need_crits=True):
+    """an optional valid chain of 1-2 links that leaves something on the axes that are needed"""
+    if rng.random() < p:
+        for _ in range(5):
+            pre = gen_chain(rng, dm, rng.randint(1, 2))
+            ok, a, c = _walk(dm["alternatives"], dm["criteria"], pre)
+            if ok and (a or not need_alts) and (c or not need_crits):
+                return pre, a, c
+    return [], list(dm["alternatives"]), list(dm["criteria"])
+
+
+def _tail(rng, a, c, p=0.5):
+    """what may follow a link: copy / dict round trip and further links on the matrix that is left"""
+    r = rng.random()
+    if r > p:
+        return []
+    t = [{"kind": rng.choice(["copy", "roundtrip"])}] if r < 0.6 * p else []
+    if r > 0.3 * p:
+        t += gen_chain(rng, {"alternatives": a, "criteria": c}, rng.randint(1, 2))
+    return t
+
+
+def row_cases(rng, n):
+    """a SCALAR row selector -- dm.loc[label], dm.iloc[i], (scalar row, column list / slice / mask / all) -- on matrices in
+    which some (or all) alternative labels are also criterion labels; the row asked for is a twin of a criterion three
+    times out of four; alone, after other links, and followed by copy() / round trips / further links"""
+    out = []
+    for i in range(n):
+        dm = dm_case(rng, shared_labels=rng.choice(["some", "some", "all"]))
+        pre, a, c = _prefix(rng, dm, need_crits=False)
+        twins = [x for x in a if x in c]
+        if not twins and pre:  # the prefix dropped every twin: select on the source itself
+            pre, a, c = [], list(dm["alternatives"]), list(dm["criteria"])
+            twins = [x for x in a if x in c]
+        lab = rng.choice(twins) if twins and rng.random() < 0.75 else rng.choice(a)
+        kind = rng.choice(["loc", "iloc"])
+        step = {"kind": kind, "rows": {"one": lab} if kind == "loc" else {"one": a.index(lab) - (len(a) if rng.random() < 0.3 else 0)}}
+        if rng.random() < 0.6:
+            step["cols"] = gen_label_sel(rng, c, allow_one=False) if kind == "loc" else gen_pos_sel(rng, len(c), allow_one=False)
+        chain = pre + [step]
+        ok, a2, c2 = _walk(dm["alternatives"], dm["criteria"], chain)
+        if ok:
+            chain += _tail(rng, a2, c2)
+        out.append({"kind": "chain", "dm": dm, "chain": chain})
+    return out
+
+
+def _only(rng, crits, keep, kind):
+    """a column selector (label or positional) that asks for exactly the criteria `keep` (non-empty, in some order)"""
+    pick = rng.sample(keep, rng.randint(1, len(keep)))
+    pos = sorted(crits.index(x) for x in pick)
+    forms = ["many", "many", "mask"]
+    if len(pick) == 1:
+        forms += ["one", "one"]
+    if pos == list(range(pos[0], pos[-1] + 1)):
+        forms += ["slice", "slice"]
+    f = rng.choice(forms)
+    n = len(crits)
+    if f == "one":
+        return {"one": pick[0] if kind == "loc" else crits.index(pick[0]) - (n if rng.random() < 0.3 else 0)}
+    if f == "many":
+        return {"many": pick if kind == "loc" else [crits.index(x) - (n if rng.random() < 0.3 else 0) for x in pick]}
+    if f == "mask":
+        return {"mask": [x in pick for x in crits]}
+    if kind == "loc":
+        return {"slice": [crits[pos[0]], crits[pos[-1]]]}
+    return {"slice": [pos[0] if pos[0] or rng.random() < 0.5 else None, pos[-1] + 1 if pos[-1] + 1 < n or rng.random() < 0.5 else None, None]}
+
+
+def zero_weight_cases(rng, n):
+    """matrices with criteria of weight exactly 0 next to others; a selection (dm[...], loc / iloc with a column selector)
+    that keeps ONLY zero-weight criteria, then copy() or a to_dict()/mkdm round trip (once or twice), then maybe more"""
+    out = []
+    for i in range(n):
+        dm = dm_case(rng, n=rng.randint(2, 6) if i % 8 else None, zero="all" if i % 8 == 0 else "mixed")
+        w = dict(zip(dm["criteria"], dm["weights"]))
+        pre, a, c = _prefix(rng, dm, p=0.3)
+        if not [x for x in c if w[x] == 0]:
+            pre, a, c = [], list(dm["alternatives"]), list(dm["criteria"])
+        keep = [x for x in c if w[x] == 0]
+        r = rng.random()
+        if r < 0.4:
+            cs = _only(rng, c, keep, "loc")
+            (k, v), = cs.items()
+            if k == "one":
+                step = {"kind": "getitem", "sel": {"col": v}}
+            else:
+                step = {"kind": "getitem", "sel": {"cols": v if k == "many" else req_label(c, cs)[1]}}
+        else:
+            kind = "loc" if r < 0.7 else "iloc"
+            rs = gen_label_sel(rng, a, allow_one=False) if kind == "loc" else gen_pos_sel(rng, len(a), allow_one=False)
+            step = {"kind": kind, "rows": rs, "cols": _only(rng, c, keep, kind)}
+        chain = pre + [step, {"kind": rng.choice(["copy", "roundtrip"])}]
+        if rng.random() < 0.3:
+            chain.append({"kind": rng.choice(["copy", "roundtrip"])})
+        ok, a2, c2 = _walk(dm["alternatives"], dm["criteria"], chain)
+        if ok:
+            chain += _tail(rng, a2, c2, p=0.3)
+        out.append({"kind": "chain", "dm": dm, "chain": chain})
+    return out
+
+
 def gen(ctx):
     rng = ctx.rng
     cases = alias_cases()
     for _ in range(ctx.n(1500, 20000)):
-        dm = dm_case(rng)
+        # one matrix in eight has alternatives named like criteria: every selector form meets them in ordinary chains
+        dm = dm_case(rng, shared_labels=rng.choice(["some", "some", "all"]) if rng.random() < 0.125 else False)
         cases.append({"kind": "chain", "dm": dm, "chain": gen_chain(rng, dm, rng.randint(1, 6))})
     cases += colseries_cases(rng, ctx.n(60, 400))
+    cases += row_cases(rng, ctx.n(150, 1000))
+    cases += zero_weight_cases(rng, ctx.n(150, 1000))
     if ctx.thorough:
         cases += exhaustive_cases()
     return cases
@@ -525,7 +659,7 @@ def search_gen(ctx):
     rng = ctx.rng
     cases = []
     for _ in range(3000):
-        dm = dm_case(rng, m=rng.randint(1, 4), n=rng.randint(1, 4))
+        dm = dm_case(rng, m=rng.randint(1, 4), n=rng.randint(1, 4), shared_labels=rng.choice(["some", "all"]) if rng.random() < 0.2 else False)
         cases.append({"kind": "chain", "dm": dm, "chain": gen_chain(rng, dm, rng.randint(1, 2))})
     return cases
 
